@@ -101,14 +101,18 @@ PROPERTIES = {
     "C15": {
         "functions": ["opfython.models.semi_supervised.SemiSupervisedOPF.fit", SUP + "_find_prototypes",
                       "opfython.core.subgraph.Subgraph.__init__", "opfython.core.subgraph.Subgraph._build"] + HEAP_FUNCS
-                     + ["lean:OptimumPath"],
+                     + ["lean:OptimumPath", "static:semi_equals_supervised"],
         "lemmas": HEAP_LEMMAS + ["inj_card"],
         "files": SUP_FILES + ["opfython/models/semi_supervised.py"],
         "bounded": "bounded.supervised",
         "level": "proof",
         "trusted": COMMON_TRUST + GRAPH_TRUST + [
-            "the clause 'with an empty unlabeled set the result is identical to supervised training' is checked by the "
-            "bounded channel only (relational comparison of the two real fits), not by a solver query",
+            "the clause 'with an empty unlabeled set the result is identical to supervised training' is a relational "
+            "obligation decided by mechanical statement alignment of the two real fit bodies (item "
+            "static:semi_equals_supervised: the semi-supervised body minus the zero-trip append loop, its counter and the "
+            "`label` stores is statement-for-statement the supervised body; the removed parts are read by nothing that "
+            "runs afterwards, callees included) - the meta-argument 'same statements on states equal up to unread fields "
+            "give equal results' is by inspection; the bounded channel compares the two real fits as well",
             "the step from the discharged postconditions to 'optimum max-arc path cost' is lemmas/OptimumPath.lean (as C01)",
         ],
     },
